@@ -145,7 +145,11 @@ fn regs(_host: &mut Host, name: &str, op: &Value) -> Result<Option<Value>, Strin
         "script" => {
             // ["r.script", steps, mode?]: mode "runtime" drives the string-keyed API of a CoreRuntime
             // (set_reg / get_reg by name) instead of the LlamaState directly; TEMPs always go through the state
-            let runtime = op.get(2).and_then(|x| x.as_str()) == Some("runtime");
+            let mode = op.get(2).and_then(|x| x.as_str()).unwrap_or("state").to_string();
+            let runtime = mode == "runtime" || mode == "bundle";
+            // mode "bundle": a restart goes through the real bundle on disk (CoreRuntime::save_snapshot -> a fresh
+            // runtime's load_snapshot); op[3] is the scratch path
+            let bundle_path = if mode == "bundle" { op.get(3).and_then(|x| x.as_str()).map(|x| x.to_string()) } else { None };
             let mut rt = Box::new(sc62015_core::CoreRuntime::new());
             rt.state = LlamaState::new();
             let script = op.get(1).and_then(|x| x.as_array()).ok_or_else(|| "steps".to_string())?;
@@ -188,7 +192,15 @@ fn regs(_host: &mut Host, name: &str, op: &Value) -> Result<Option<Value>, Strin
                         }
                         let mut fresh = Box::new(sc62015_core::CoreRuntime::new());
                         fresh.state = LlamaState::new();
-                        apply_registers(&mut fresh.state, &back);
+                        if let Some(path) = bundle_path.as_ref() {
+                            let pth = std::path::Path::new(path);
+                            rt.save_snapshot(pth).map_err(|e| format!("save_snapshot: {e}"))?;
+                            let res = fresh.load_snapshot(pth);
+                            let _ = std::fs::remove_file(pth);
+                            res.map_err(|e| format!("load_snapshot: {e}"))?;
+                        } else {
+                            apply_registers(&mut fresh.state, &back);
+                        }
                         rt = fresh;
                         out.push(json!(blob));
                     }
@@ -196,7 +208,15 @@ fn regs(_host: &mut Host, name: &str, op: &Value) -> Result<Option<Value>, Strin
                         let regs = collect_registers(&rt.state);
                         let mut fresh = Box::new(sc62015_core::CoreRuntime::new());
                         fresh.state = LlamaState::new();
-                        apply_registers(&mut fresh.state, &regs);
+                        if let Some(path) = bundle_path.as_ref() {
+                            let pth = std::path::Path::new(path);
+                            rt.save_snapshot(pth).map_err(|e| format!("save_snapshot: {e}"))?;
+                            let res = fresh.load_snapshot(pth);
+                            let _ = std::fs::remove_file(pth);
+                            res.map_err(|e| format!("load_snapshot: {e}"))?;
+                        } else {
+                            apply_registers(&mut fresh.state, &regs);
+                        }
                         rt = fresh;
                         out.push(Value::Null);
                     }
